@@ -7,8 +7,13 @@ VARIABLE hist
 SimInit == Init /\ hist = <<>>
 \* crash-free behaviours: a crash ends what the library instance can be asked (C09/C10 crash points are
 \* covered by evaluating CrashSafe/Durable on every device write of the replayed run)
+\* the device writes the call will issue, in order, without their payloads
+AbsW(w) == CASE w.t \in {"fat", "fat2"} -> <<w.t, w.c, w.v>>
+             [] w.t = "slot" -> <<"slot", w.b, w.i>>
+             [] OTHER -> <<w.t, w.c>>
+AbsPlan(p) == [i \in 1..Len(p) |-> AbsW(p[i])]
 SimNext == /\ Next /\ lastOp' # <<"crash">>
-           /\ hist' = IF lastOp' = <<"w">> THEN hist ELSE Append(hist, lastOp')
+           /\ hist' = IF lastOp' = <<"w">> THEN hist ELSE Append(hist, <<lastOp', AbsPlan(plan')>>)
 SimSpec == SimInit /\ [][SimNext]_<<vars, hist>>
 Bound == Len(hist) <= K
 Emit == (Len(hist) = K /\ plan = <<>> /\ lastOp # <<"w">>) => PrintT(<<"REPLAY", hist>>)
